@@ -208,6 +208,13 @@ func edits() []edit {
 		t := s.typ("U")
 		t.PossibleTypes = append(t.PossibleTypes, named("OBJECT", "C"))
 	})
+	// the same new type name as add-type-and-field, as another kind (next to a version that lacks it: a kind that
+	// changes between two versions that are not neighbours)
+	add("add-enum-type-and-field", func(s *schema) {
+		s.Types = append(s.Types, typ{Name: "D", Kind: "ENUM", EnumValues: enumVals("P", "Q")})
+		t := s.typ("A")
+		t.Fields = append(t.Fields, fld{Name: "dd", Type: named("ENUM", "D")})
+	})
 	add("add-type-and-field", func(s *schema) {
 		s.Types = append(s.Types, typ{Name: "D", Kind: "OBJECT", Fields: []fld{{Name: "d", Type: nn(named("SCALAR", "String"))}}})
 		t := s.typ("A")
@@ -585,6 +592,8 @@ func run(rp *explore.Report, tier string) {
 					class := kind + "/other-error"
 					if strings.Contains(e.Error(), "is non-null") {
 						class = kind + "/required-input-unknown-to-another-side"
+					} else if strings.Contains(e.Error(), "kinds ") && strings.Contains(e.Error(), " differ") {
+						class = kind + "/conflicting-kinds-hidden-by-a-side-without-the-type"
 					}
 					fail("order-independent", class, item, fmt.Sprintf("merging fails in one order/naming (%v) and succeeds in another (%v)", firstErr, err))
 					return
@@ -652,5 +661,5 @@ func run(rp *explore.Report, tier string) {
 
 func init() {
 	reg.Register(&reg.Harness{Property: "C09", Name: "c09/merge", Level: "exploration", Run: run,
-		Rule: "a base introspection schema (objects, input object, enum, union, list/non-null nestings, arguments) and every schema reachable by one edit (thorough: two edits) out of 36 (add/remove type, field, nullable or required argument, input field, enum value, union member; toggle NON_NULL at each nesting level of outputs, arguments and input fields; change a named type); all unordered pairs as two versions of one service and as two services, and triples as three versions / three services, each under every permutation of the inputs and two namings. Oracle on MergeIntrospectionSchemas: the merged schema contains only what every version has / everything some service has, argument required iff any side requires it, output non-null iff every side guarantees it (per nesting level), referenced types present, identical result for every order and naming, either all orders fail or none, the inputs are left unmodified and a second merge of the same objects gives the same schema"})
+		Rule: "a base introspection schema (objects, input object, enum, union, list/non-null nestings, arguments) and every schema reachable by one edit (thorough: two edits) out of 37 (add/remove type, field, nullable or required argument, input field, enum value, union member; toggle NON_NULL at each nesting level of outputs, arguments and input fields; change a named type); all unordered pairs as two versions of one service and as two services, and triples as three versions / three services, each under every permutation of the inputs and two namings. Oracle on MergeIntrospectionSchemas: the merged schema contains only what every version has / everything some service has, argument required iff any side requires it, output non-null iff every side guarantees it (per nesting level), referenced types present, identical result for every order and naming, either all orders fail or none, the inputs are left unmodified and a second merge of the same objects gives the same schema"})
 }
